@@ -788,8 +788,18 @@ def translate(repo):
         disp[entry] = {'table': table, 'mix': mix, 'default_mode': default_mode}
         consumed['geometry_processor.py:' + entry] = region_sha(src, methods[entry])
     # calculate_element_normals post-processes with functions.normalize
-    nsrc = ast.get_source_segment(src, methods['calculate_element_normals'])
-    if nsrc.count('normals = functions.normalize(normals)') != 1:
+    # (by meaning: exactly one top-level `x = functions.normalize(x)` on the result variable, after
+    # the dispatch chain; keep_zeros not passed)
+    nfn = methods['calculate_element_normals']
+    hits = [i for i, st in enumerate(nfn.body)
+            if isinstance(st, ast.Assign) and len(st.targets) == 1 and isinstance(st.targets[0], ast.Name)
+            and st.targets[0].id == 'normals' and isinstance(st.value, ast.Call)
+            and ast.unparse(st.value.func) == 'functions.normalize' and not st.value.keywords
+            and len(st.value.args) == 1 and isinstance(st.value.args[0], ast.Name)
+            and st.value.args[0].id == 'normals']
+    chain_at = [i for i, st in enumerate(nfn.body)
+                if isinstance(st, ast.If) and _test(st.test, 'element_type') is not None]
+    if len(hits) != 1 or not chain_at or hits[0] < chain_at[0]:
         raise TranslateError('calculate_element_normals: final functions.normalize not found')
     mt, mmix = metrics_dispatch(methods['calculate_element_metrics'], src, types)
     disp['calculate_element_metrics'] = {'table': mt, 'mix': mmix}
